@@ -65,7 +65,7 @@ def main():
     }
     json.dump(m, open(os.path.join(HERE, "MANIFEST.json"), "w"), indent=1)
 
-HOOK_COMMITS = []
+HOOK_COMMITS = ["36bce13", "6fcc21e"]
 
 if __name__ == "__main__":
     main()
